@@ -22,7 +22,6 @@ Proof. intros A [|x l] H; [reflexivity | exfalso; apply (H x); left; reflexivity
 Section Fixed.
   Variables (nv : N -> Z) (P : list rule) (F : list fact).
   Hypothesis HS : safe P = true.
-  Hypothesis HV : known_C05_varcmp P = false.
 
   (* what both strategies maintain about the fact vector *)
   Definition sinv (all : list fact) : Prop :=
@@ -69,7 +68,7 @@ Section Fixed.
                                    ninv (fst (naive_round nv P st all)) (absorb all (snd (naive_round nv P st all))).
   Proof.
     intros [] all HI _. unfold ninv in *. apply sinv_absorb; [exact HI |].
-    intros g Hg. apply (naive_round_spec nv P all g HS HV) in Hg. destruct Hg as [Hg _].
+    intros g Hg. apply (naive_round_spec nv P all g HS) in Hg. destruct Hg as [Hg _].
     destruct HI as [HD _]. apply (derives_step nv P F all g HD Hg).
   Qed.
 
@@ -84,7 +83,7 @@ Section Fixed.
     destruct (infer_loop_inv (naive_round nv P) ninv ninv_step fuel tt F res sinv_init E) as [[] [HI Hnil]].
     apply sinv_result; [exact HI |]. intros g Hg.
     destruct (In_fact_dec g res) as [Hin | Hnin]; [exact Hin |].
-    assert (X : In g (snd (naive_round nv P tt res))) by (apply (naive_round_spec nv P res g HS HV); auto).
+    assert (X : In g (snd (naive_round nv P tt res))) by (apply (naive_round_spec nv P res g HS); auto).
     rewrite Hnil in X. destruct X.
   Qed.
 
@@ -120,7 +119,7 @@ Section Fixed.
   Proof.
     intros start all [HI Hold] _. rewrite semi_round_state.
     assert (Hder : forall g, In g (snd (semi_round nv P start all)) -> derives nv P F g).
-    { intros g Hg. apply (semi_round_spec nv P start all g HS HV) in Hg. destruct Hg as [[r [sg [c [Hr [Hp [_ [Hf [Hc ->]]]]]]]] _].
+    { intros g Hg. apply (semi_round_spec nv P start all g HS) in Hg. destruct Hg as [[r [sg [c [Hr [Hp [_ [Hf [Hc ->]]]]]]]] _].
       destruct HI as [HD _]. apply (derives_step nv P F all _ HD). exists r, sg, c. auto. }
     split; [apply sinv_absorb; assumption |].
     destruct (absorb_spec (snd (semi_round nv P start all)) all) as [l' [H1 [H2 H3]]].
@@ -128,7 +127,7 @@ Section Fixed.
     rewrite FE.
     apply (semi_closure start all); [intros g Hg; apply absorb_In; auto | exact Hold |].
     intros g Hg. apply absorb_In. destruct (In_fact_dec g all) as [Hin | Hnin]; [auto | right].
-    apply (semi_round_spec nv P start all g HS HV). auto.
+    apply (semi_round_spec nv P start all g HS). auto.
   Qed.
 
   Theorem semi_correct : forall fuel all new,
@@ -143,7 +142,7 @@ Section Fixed.
     apply sinv_result; [exact HI |].
     apply (semi_closure start res res); [auto | exact Hold |].
     intros g Hg. destruct (In_fact_dec g res) as [Hin | Hnin]; [exact Hin |].
-    assert (X : In g (snd (semi_round nv P start res))) by (apply (semi_round_spec nv P start res g HS HV); auto).
+    assert (X : In g (snd (semi_round nv P start res))) by (apply (semi_round_spec nv P start res g HS); auto).
     rewrite Hnil in X. destruct X.
   Qed.
 End Fixed.
@@ -156,24 +155,24 @@ Proof.
 Qed.
 
 Theorem naive_idempotent : forall nv P F M fuel,
-    safe P = true -> known_C05_varcmp P = false -> (forall f, In f M <-> derives nv P F f) ->
+    safe P = true -> (forall f, In f M <-> derives nv P F f) ->
     naive_run nv (S fuel) P M = Some (M, []).
 Proof.
-  intros nv P F M fuel HS HV HM. unfold naive_run, infer_with_strategy. cbn [infer_loop].
+  intros nv P F M fuel HS HM. unfold naive_run, infer_with_strategy. cbn [infer_loop].
   assert (E : snd (naive_round nv P tt M) = []).
-  { apply nil_no_elements. intros g Hg. apply (naive_round_spec nv P M g HS HV) in Hg. destruct Hg as [Hg Hn].
+  { apply nil_no_elements. intros g Hg. apply (naive_round_spec nv P M g HS) in Hg. destruct Hg as [Hg Hn].
     apply Hn. apply (model_closed nv P F M g HM Hg). }
   destruct (naive_round nv P tt M) as [st inf]. cbn in E. subst inf.
   cbn. rewrite skipn_all. reflexivity.
 Qed.
 
 Theorem semi_idempotent : forall nv P F M fuel,
-    safe P = true -> known_C05_varcmp P = false -> (forall f, In f M <-> derives nv P F f) ->
+    safe P = true -> (forall f, In f M <-> derives nv P F f) ->
     semi_run nv (S fuel) P M = Some (M, []).
 Proof.
-  intros nv P F M fuel HS HV HM. unfold semi_run, infer_with_strategy. cbn [infer_loop].
+  intros nv P F M fuel HS HM. unfold semi_run, infer_with_strategy. cbn [infer_loop].
   assert (E : snd (semi_round nv P O M) = []).
-  { apply nil_no_elements. intros g Hg. apply (semi_round_spec nv P O M g HS HV) in Hg. destruct Hg as [Hg Hn].
+  { apply nil_no_elements. intros g Hg. apply (semi_round_spec nv P O M g HS) in Hg. destruct Hg as [Hg Hn].
     apply Hn. apply (model_closed nv P F M g HM). destruct Hg as [r [sg [c [Hr [Hp [_ [Hf [Hc ->]]]]]]]]. exists r, sg, c. auto. }
   destruct (semi_round nv P O M) as [st inf]. cbn in E. subst inf.
   cbn. rewrite skipn_all. reflexivity.
@@ -192,14 +191,6 @@ Qed.
 Lemma safe_set_eq : forall P P', (forall r, In r P <-> In r P') -> safe P = true -> safe P' = true.
 Proof.
   intros P P' H HS. unfold safe in *. rewrite forallb_forall in *. intros r Hr. apply HS. apply H. exact Hr.
-Qed.
-
-Lemma varcmp_set_eq : forall P P', (forall r, In r P <-> In r P') -> known_C05_varcmp P = false -> known_C05_varcmp P' = false.
-Proof.
-  intros P P' H HV. unfold known_C05_varcmp in *. destruct (existsb _ P') eqn:E; [| reflexivity].
-  apply existsb_exists in E. destruct E as [r [Hr Hx]].
-  assert (X : existsb (fun r => existsb (fun f => negb (filter_supported f)) (filt r)) P = true) by (apply existsb_exists; exists r; split; [apply H; exact Hr | exact Hx]).
-  congruence.
 Qed.
 
 (* ---- termination ------------------------------------------------------------------------------------ *)
@@ -265,15 +256,14 @@ Qed.
 Section Term.
   Variables (nv : N -> Z) (P : list rule) (F : list fact).
   Hypothesis HS : safe P = true.
-  Hypothesis HV : known_C05_varcmp P = false.
 
   Theorem naive_terminates : forall fuel,
       (length (cube (consts P F)) < fuel)%nat -> naive_run nv fuel P F <> None.
   Proof.
     intros fuel Hf. unfold naive_run, infer_with_strategy.
     assert (X : infer_loop (naive_round nv P) fuel tt (F ++ []) <> None).
-    { apply (infer_loop_terminates (naive_round nv P) (ninv nv P F) (ninv_step nv P F HS HV) (cube (consts P F)) F).
-      - intros [] all g HI Hg. apply (naive_round_spec nv P all g HS HV) in Hg. destruct Hg as [Hg Hn]. split; [| exact Hn].
+    { apply (infer_loop_terminates (naive_round nv P) (ninv nv P F) (ninv_step nv P F HS) (cube (consts P F)) F).
+      - intros [] all g HI Hg. apply (naive_round_spec nv P all g HS) in Hg. destruct Hg as [Hg Hn]. split; [| exact Hn].
         apply (derives_in_cube nv P F g HS). destruct HI as [HD _]. apply (derives_step nv P F all g HD Hg).
       - rewrite app_nil_r. apply sinv_init.
       - constructor.
@@ -287,8 +277,8 @@ Section Term.
   Proof.
     intros fuel Hf. unfold semi_run, infer_with_strategy.
     assert (X : infer_loop (semi_round nv P) fuel O (F ++ []) <> None).
-    { apply (infer_loop_terminates (semi_round nv P) (sminv nv P F) (sminv_step nv P F HS HV) (cube (consts P F)) F).
-      - intros start all g [HI _] Hg. apply (semi_round_spec nv P start all g HS HV) in Hg. destruct Hg as [Hg Hn]. split; [| exact Hn].
+    { apply (infer_loop_terminates (semi_round nv P) (sminv nv P F) (sminv_step nv P F HS) (cube (consts P F)) F).
+      - intros start all g [HI _] Hg. apply (semi_round_spec nv P start all g HS) in Hg. destruct Hg as [Hg Hn]. split; [| exact Hn].
         apply (derives_in_cube nv P F g HS). destruct HI as [HD _]. apply (derives_step nv P F all g HD).
         destruct Hg as [r [sg [c [Hr [Hp [_ [Hfl [Hc ->]]]]]]]]. exists r, sg, c. auto.
       - rewrite app_nil_r. apply (sminv_init nv P F HS).
